@@ -115,9 +115,29 @@ pub fn run_session(
     timeout: Duration,
     send_cancel: bool,
 ) -> RunOut {
+    run_session_opts(fsm, events, actions, verbose, timeout, send_cancel, false)
+}
+
+/// as `run_session`; with `vdm = true` the verification data model (harness/src/vdm.rs) created
+/// for the session reports into the same log as the tracer
+pub fn run_session_opts(
+    mut fsm: Box<Fsm>,
+    events: &[Event],
+    actions: ActionWrapper,
+    verbose: bool,
+    timeout: Duration,
+    send_cancel: bool,
+    vdm: bool,
+) -> RunOut {
     let (tracer, log) = RecTracer::new(verbose);
     fsm.tracer = Box::new(tracer);
     let executor = FsmExecutor::new_without_io_processor();
+    let mut vdm_id = None;
+    if vdm {
+        let id = crate::vdm::register_log(&log);
+        executor.state.lock().unwrap().datamodel_options.insert(crate::vdm::OPT_LOG.to_string(), id.clone());
+        vdm_id = Some(id);
+    }
     let mut session = fsm::start_fsm_with_data_and_finish_mode(
         fsm,
         actions,
@@ -150,6 +170,92 @@ pub fn run_session(
         Err(p) => p.into_inner().final_configuration.clone(),
     };
     let trace = log.lock().unwrap_or_else(|e| e.into_inner()).clone();
+    if let Some(id) = vdm_id {
+        crate::vdm::unregister_log(&id);
+    }
+    RunOut { trace, panicked, timed_out, final_configuration }
+}
+
+/// Starts `fsm` as a real session and delivers the event batches one after the other: batch `i`
+/// is sent once the session has blocked on its external queue `idle_before[i]` times (the number
+/// the model predicts), i.e. while it is idle with an empty queue.  Events the session sends to
+/// itself therefore interleave deterministically with the batches.
+pub fn run_session_feed(
+    mut fsm: Box<Fsm>,
+    batches: &[Vec<Event>],
+    idle_before: &[usize],
+    verbose: bool,
+    timeout: Duration,
+    vdm: bool,
+) -> RunOut {
+    let (tracer, log) = RecTracer::new(verbose);
+    fsm.tracer = Box::new(tracer);
+    let executor = FsmExecutor::new_without_io_processor();
+    let mut vdm_id = None;
+    if vdm {
+        let id = crate::vdm::register_log(&log);
+        executor.state.lock().unwrap().datamodel_options.insert(crate::vdm::OPT_LOG.to_string(), id.clone());
+        vdm_id = Some(id);
+    }
+    let mut session = fsm::start_fsm_with_data_and_finish_mode(
+        fsm,
+        ActionWrapper::new(),
+        Box::new(executor.clone()),
+        &[],
+        FinishMode::KEEP_CONFIGURATION,
+    );
+    let handle = session.thread.take().unwrap();
+    let start = Instant::now();
+    let mut timed_out = false;
+    let mut seen = 0usize; // log lines scanned
+    let mut idles = 0usize;
+    'outer: for (i, b) in batches.iter().enumerate() {
+        let need = *idle_before.get(i).unwrap_or(&usize::MAX);
+        loop {
+            {
+                let g = log.lock().unwrap_or_else(|e| e.into_inner());
+                while seen < g.len() {
+                    if g[seen] == "m> externalQueue.dequeue" {
+                        idles += 1;
+                    }
+                    seen += 1;
+                }
+            }
+            if idles >= need {
+                break;
+            }
+            if handle.is_finished() {
+                break 'outer;
+            }
+            if start.elapsed() > timeout {
+                timed_out = true;
+                break 'outer;
+            }
+            std::thread::sleep(Duration::from_micros(100));
+        }
+        for e in b {
+            let _ = session.sender.send(e.get_copy());
+        }
+    }
+    while !timed_out && !handle.is_finished() {
+        if start.elapsed() > timeout {
+            timed_out = true;
+            break;
+        }
+        std::thread::sleep(Duration::from_micros(200));
+    }
+    let mut panicked = false;
+    if !timed_out {
+        panicked = handle.join().is_err();
+    }
+    let final_configuration = match session.global_data.lock() {
+        Ok(g) => g.final_configuration.clone(),
+        Err(p) => p.into_inner().final_configuration.clone(),
+    };
+    let trace = log.lock().unwrap_or_else(|e| e.into_inner()).clone();
+    if let Some(id) = vdm_id {
+        crate::vdm::unregister_log(&id);
+    }
     RunOut { trace, panicked, timed_out, final_configuration }
 }
 
